@@ -97,6 +97,56 @@ def compare(chk, mode_args, lines_in, keys_of, stats):
             stats["text_mismatch"].append((p, unhx(src), unhx(mtxt)))
         stats["validated"] += 1
 
+def direct_glob(p, k):
+    """the glob relation, written directly (independent of the model and of the implementation)"""
+    if not p:
+        return not k
+    if p[0:1] == b"*":
+        return any(direct_glob(p[1:], k[i:]) for i in range(len(k) + 1))
+    if not k:
+        return False
+    if p[0:1] == b"?" or p[0] == k[0]:
+        return direct_glob(p[1:], k[1:])
+    return False
+
+def store_level(chk, rng, tier):
+    import connlib as L, cmdgen as G, storeprops as S
+    keys = [b"a", b"ab", b"ab?", b"aba", b"abab", b"abb", b"b", b"a.c", b"abc", b"a+b", b"(", b"a|b", b"$", b"user:", b"user:1", b"user:10", b"*", b"?", b"", b"a\nb", b"xabcx"]
+    pats = [b"*", b"?", b"a?", b"ab?", b"a*", b"*b", b"a.c", b"a+b", b"(", b"a|b", b"$", b"user:?", b"user:*", b"??", b"???", b"a??", b"*a*", b"ab", b"abc", b"?*", b"*?", b"a?b", b"", b"\\*", b"\\?", b"x*x"]
+    pats += [bytes(rng.choice(ALPHA5) for _ in range(rng.randint(1, 4))) for _ in range(40 if tier == "quick" else 400)]
+    cases = []
+    setup = [("MSET", [x for k in keys for x in (k, b"v")])]
+    for i in range(0, len(pats), 8):
+        part = pats[i:i + 8]
+        reqs = setup + [r for p in part for r in (("KEYS", [p]), ("SCAN", [b"0", b"MATCH", p, b"COUNT", b"100000"]))]
+        data = b"".join(G.request_bytes(n, a) for n, a in reqs)
+        cases.append(dict(reqs=reqs, pats=part, line=L.mkcase([(0, "f" + L.hx(data)), (0, "e")], handler="example", trace=False), desc="KEYS / SCAN MATCH for %s" % [p.decode("latin1") for p in part]))
+    lines = [c["line"] for c in cases]
+    rc, o, _ = vlib.run_harness(["conn"], "\n".join(lines) + "\n", timeout=600)
+    outs = [l.split(" ", 1)[1] for l in o.splitlines() if " " in l and l.split(" ", 1)[0].isdigit()]
+    if rc != 0 or len(outs) != len(cases):
+        chk.violation("harness-failure", "store-level run failed rc=%d: %s" % (rc, o[-300:]), dict(stage="store"), True)
+        return 0
+    n = 0
+    for c, a in zip(cases, outs):
+        obs = L.Obs(a)
+        reps = S.replies_of(obs)
+        if len(reps) != len(c["reqs"]):
+            chk.violation("store-replies", "expected %d replies, got %d :: %s" % (len(c["reqs"]), len(reps), c["desc"]), dict(case=c["line"]))
+            continue
+        for j, p in enumerate(c["pats"]):
+            want = sorted(k for k in keys if direct_glob(p, k))
+            kr, sr = reps[1 + 2 * j], reps[2 + 2 * j]
+            got_keys = sorted(x[1] for x in kr[1]) if kr[0] == "*" else None
+            got_scan = sorted(x[1] for x in sr[1][1][1]) if sr[0] == "*" and len(sr[1]) == 2 and sr[1][1][0] == "*" else None
+            n += 1
+            if got_keys != want:
+                chk.violation("keys-differs", "KEYS %r returned %s, the glob relation selects %s" % (p, got_keys, want), dict(case=c["line"], pattern=repr(p), pattern_hex=hx(p), got=repr(got_keys), expected=repr(want)))
+            elif got_scan != want:
+                chk.violation("scan-differs", "SCAN 0 MATCH %r returned %s, KEYS and the glob relation select %s" % (p, got_scan, want), dict(case=c["line"], pattern=repr(p), pattern_hex=hx(p), got=repr(got_scan), expected=repr(want)))
+    chk.coverage["store_level_patterns"] = n
+    return n
+
 def run(tier, seed):
     chk = Check("C17", tier, seed)
     broken = vlib.standard_proof_stage(chk, "C17")
@@ -128,6 +178,9 @@ def run(tier, seed):
         lines.append(hx(p) + " " + " ".join(hx(k) for k in ks))
         keysets.append(ks)
     compare(chk, [hx(ALPHA), "-1"], lines, lambda i: keysets[i], stats)
+    # KEYS and SCAN MATCH on a populated store (the bundled example server through the real connection loop) select
+    # exactly the keys the glob relation selects
+    store_cases = store_level(chk, rng, tier)
     if stats["text_mismatch"] and not chk.violations:
         p, a, m = stats["text_mismatch"][0]
         chk.violation("corr-text", "correspondence: regexp source for %r is %r, model regexp_from_glob gives %r; "
